@@ -24,6 +24,21 @@ def for_property(pid, props):
     return out
 
 
+def _cut_bib(E, call):
+    E.ctx.env['balance_invariants_broken'] = True
+    return models_fvm.actor_error(E, 1000, 'balance invariants broken')
+
+
+def install_bib_cut(E):
+    # not a behavioural cut: the error constructor is replaced by itself + a marker, so the oracle can tell this error
+    # from a propagated failure of a nested send that happens to carry the same exit code
+    E.cuts['balance_invariants_broken'] = _cut_bib
+
+
+def bib_prop(res):
+    return tagged('C05', "the internal 'balance invariants broken' error is never reported", res.ctx.env.get('balance_invariants_broken') is not True)
+
+
 def classify_sends(rt, ctx):
     burns, pledge, others = [], [], []
     for s in rt.sends:
@@ -121,6 +136,7 @@ def run_apply_rewards(nvest):
         E.ctx.env['params'] = params
         E.ctx.env['balance0'] = rt.balance
         E.cuts['VestingFunds::add_locked_funds'] = cut_add_locked_funds
+        install_bib_cut(E)
         fn = find_fn(E, MINER, 'apply_rewards')
         return E.run_function(fn, [rtref, params]), rt
     return run
@@ -132,10 +148,7 @@ def props_apply_rewards(E, res):
     if res.kind != 'return':
         return [tagged('ALL', 'no panic (%s)' % str(res.info)[:60], False)]
     if is_err(res.value):
-        c = err_code(E, res.value)
-        # the reward actor tolerates a failing ApplyRewards (it burns the reward instead); what must never happen is the
-        # internal invariant error
-        return [tagged('C05', "never reports 'balance invariants broken' (exit 20 after the transaction committed)", b_or(rt.commits == 0, c != 20))]
+        return [bib_prop(res)]
     params = env['params']
     reward = fget(E, params, 0, TOKEN).v
     penalty = fget(E, params, 1, TOKEN).v
@@ -164,6 +177,7 @@ def run_repay_debt(nvest):
         rt.state = pre['st']
         E.ctx.assume(rt.balance >= pre['pcd'] + pre['lf'] + pre['ip'])
         E.ctx.env['balance0'] = rt.balance
+        install_bib_cut(E)
         fn = find_fn(E, MINER, 'repay_debt')
         return E.run_function(fn, [rtref]), rt
     return run
@@ -175,8 +189,7 @@ def props_repay_debt(E, res):
     if res.kind != 'return':
         return [tagged('ALL', 'no panic (%s)' % str(res.info)[:60], False)]
     if is_err(res.value):
-        c = err_code(E, res.value)
-        return [tagged('C05', "never reports 'balance invariants broken'", b_or(rt.commits == 0, c != 20))]
+        return [bib_prop(res)]
     P, led, burns, pledge, others = common_money_props(E, res, 0, lambda s: False)
     a = C13.view(E, pre['info'])
     P.append(tagged('C11', 'only owner, worker or a control address repays', b_or(addr_eq(rt.caller, a['owner']), addr_eq(rt.caller, a['worker']),
@@ -202,6 +215,7 @@ def run_report_fault(nvest):
         E.ctx.assume(rt.caller.key >= 100)         # reporters are user accounts, not singleton actors
         E.ctx.env['balance0'] = rt.balance
         params = LazyV('params', 'types::ReportConsensusFaultParams')
+        install_bib_cut(E)
         fn = find_fn(E, MINER, 'report_consensus_fault')
         return E.run_function(fn, [rtref, params]), rt
     return run
@@ -214,8 +228,7 @@ def props_report_fault(E, res):
     if res.kind != 'return':
         return [tagged('ALL', 'no panic (%s)' % str(res.info)[:60], False)]
     if is_err(res.value):
-        c = err_code(E, res.value)
-        return [tagged('C05', "never reports 'balance invariants broken'", b_or(rt.commits == 0, c != 20))]
+        return [bib_prop(res)]
     reward_q = [s for s in rt.sends if implied(ctx, b_and(s.to.key == REWARD, zv(s.method) == THIS_EPOCH_REWARD))]
     P = [tagged('C15', 'epoch reward was queried from the reward actor', len(reward_q) == 1 and reward_q[0].ok is True)]
     if not reward_q:
